@@ -214,7 +214,8 @@ def select_by_identity(k0: int, a0: int, kk: int, k1: int, a1: int, k2: int, a2:
 
 
 # ------------------------------------------------------------------ O3 manifest step
-V = {"A": ['~id:a~ $[*][yes()]', '~id:b~ $[*][no()]'], "B": ['~id:a~ $[*][yes()]', '~id:c~ $[2*][no()]'], "C": ['$[*][ #0 ]']}
+V = {"A": ['~id:a~ $[*][yes()]', '~id:b~ $[*][no()]'], "B": ['~id:a~ $[*][yes()]', '~id:c~ $[2*][no()]'], "C": ['$[*][ #0 ]'],
+     "D": ['~id:a~ $[*][yes()]', '~id:d~ $[*][no()]']}  # D differs from A in one character only (same length)
 
 
 def _manifest(cs, name):
@@ -228,9 +229,9 @@ def _manifest(cs, name):
 @ob(
     "C12",
     "O3-manifest-steps",
-    pre=["0 <= c1 < 3 and 0 <= c2 < 3"],
+    pre=["0 <= c1 < 4 and 0 <= c2 < 4"],
     post="_ == ''",
-    bound="group g gets content A, then content c1, then c2 (each one of 3 contents, symbolic; equal = identical re-add), each "
+    bound="group g gets content A, then content c1, then c2 (each one of 4 contents, one of them of the same length as A; symbolic; equal = identical re-add), each "
     "step on the same or a new CsvPaths instance (symbolic): after every step get_named_paths returns the new members in order, the "
     "manifest grew by one entry iff the content changed, and its last entry fingerprints the stored group file",
     outside="remove operations; more than 3 contents; 2 group names",
@@ -238,7 +239,7 @@ def _manifest(cs, name):
     tiers={"quick": {"timeout": 1800}},
 )
 def manifest_steps(c1: int, n1: bool, c2: int, n2: bool) -> str:
-    names = ["A", "B", "C"]
+    names = ["A", "B", "C", "D"]
     with NoTracing():
         root, cs = kitpaths.env({"g": V["A"]}, with_file=False)
     problems = ""
